@@ -705,6 +705,7 @@ class Interp:
                 self._in_memo = False
             return memo[key]
         sub = Interp(self.env, self.selfattrs, self.region, self.methods, self.cls_name, externals=self.externals)
+        sub._outer = self
         sub.thresholds_seen = self.thresholds_seen
         sub.attr_sets = self.attr_sets
         sub.assign_trace = self.assign_trace
@@ -966,7 +967,14 @@ class Interp:
     def assign(self, t, v):
         if isinstance(t, ast.Name):
             if t.id in getattr(self, "nonlocal_names", ()):
-                raise Undecided(f"rebinding of the nonlocal name {t.id}")
+                # the binding lives in the frame of the enclosing function: the interpreter this one was called from (for a
+                # closure: the one it was defined in); later calls copy their scope from there and see the new value
+                fr_ = getattr(self, "_outer", None)
+                while fr_ is not None and t.id not in fr_.env:
+                    fr_ = getattr(fr_, "_outer", None)
+                if fr_ is None:
+                    raise Undecided(f"rebinding of the nonlocal name {t.id}: enclosing binding not found")
+                fr_.env[t.id] = v
             if t.id in getattr(self, "outer_names", ()):
                 shared = self.externals.get("__module_env__")
                 if shared is None:
@@ -1198,6 +1206,9 @@ class Interp:
             hv = self._home_name(e)
             if hv is not _NOHOME:
                 return hv
+            if callable(self.externals.get(e.id)) and not e.id.startswith(("__", ".")):
+                ext_f = self.externals[e.id]
+                return PyFunc(lambda a, k, ext_f=ext_f: ext_f(a, k), e.id)  # a modelled function bound to another name before it is called
             raise Undecided(f"unknown name {e.id}")
         if isinstance(e, ast.Attribute):
             if isinstance(e.value, ast.Name) and e.value.id == "self":
@@ -1635,6 +1646,17 @@ class Interp:
                 except Undecided:
                     return Obj(f"{recv.name}.{f.attr}(...)")  # opaque call on an opaque object with structured arguments
                 return fn(f.attr, Poly.atom(recv.name), *xa)
+            if isinstance(recv, (Poly, list)) and f.attr == "tobytes" and not e.args:
+                flat_ = []
+
+                def _fl(x_):
+                    if isinstance(x_, (list, tuple)):
+                        for y_ in x_:
+                            _fl(y_)
+                    else:
+                        flat_.append(str(to_poly(x_)))
+                _fl(recv)
+                return ("bytes",) + tuple(flat_)  # the content by value: equal exactly when every entry is the same expression
             if isinstance(recv, (Poly, list)) and f.attr in ("detach", "numpy", "clone", "cpu", "item", "copy", "tolist", "astype", "flatten"):
                 return recv
             if isinstance(recv, list) and f.attr == "sort":
@@ -1951,6 +1973,14 @@ class Interp:
                 o.attrs[nm] = val
                 return None
             raise Undecided("setattr on an unmodelled object")
+        if name == "getattr" and isinstance(f, ast.Name) and len(args) >= 2 and isinstance(args[0], ast.Name) and args[0].id == "self" and "self" not in self.env:
+            nm = ev(args[1])
+            if isinstance(nm, str):  # the object under interpretation is kept as its attribute table
+                if self._mangle(nm) in self.selfattrs:
+                    return self.selfattrs[self._mangle(nm)]
+                if len(args) > 2:
+                    return ev(args[2])
+                raise _PyRaise("AttributeError")
         if name == "getattr" and isinstance(f, ast.Name) and len(args) >= 2:
             o, nm = ev(args[0]), ev(args[1])
             if isinstance(o, Obj) and isinstance(nm, str):
